@@ -360,13 +360,24 @@ def build_value(world, dom, name):
     if isinstance(dom, S.HeapCompiler):
         from . import heapmodel as HM
         cls = resolve_ref(world, 'pycel.excelcompiler:ExcelCompiler')
-        obj = SObj(cls, {'cycles': dom.cycles, 'cell_map': HM.SCellMap(), 'dep_graph': HM.SGraph(),
+        building = getattr(dom, 'building', False)
+        obj = SObj(cls, {'cycles': dom.cycles, 'cell_map': HM.SCellMap(mutable=building), 'dep_graph': HM.SGraph(),
                          'log': HM.Dummy(), 'evaluate': Builtin('evaluate', HM.heap_evaluate)})
+        if building:
+            HM.declare_heap_set('graph_todos')
+            obj.fields['graph_todos'] = HM.SNodeSet('graph_todos')
+            obj.fields['range_todos'] = []
+            obj.fields['_evaluate'] = Builtin('_evaluate', HM.heap_evaluate)
+            obj.fields['_evaluate_range'] = Builtin('_evaluate_range', HM.heap_evaluate)
         return obj, Decoder(lambda m: {'$heap_compiler': True})
     if isinstance(dom, S.HeapCell):
         from . import heapmodel as HM
         n = z3.Const(name, HM.Node)
         return HM.heap_cell(world.interp, n), Decoder(lambda m: {'$node': str(m.eval(n, model_completion=True))})
+    if isinstance(dom, S.HeapAddr):
+        from . import heapmodel as HM
+        n = z3.Const(name, HM.Node)
+        return HM.SAddrObj(n), Decoder(lambda m: {'$node': str(m.eval(n, model_completion=True))})
     if isinstance(dom, S.HeapSet):
         from . import heapmodel as HM
         HM.declare_heap_set(dom.name)
@@ -618,7 +629,7 @@ class Verifier:
         from . import heapmodel as _HM
         for _n in ('cached', 'old_cached', 'same_value', 'value_is', 'succ', 'same_node', 'in_done', 'forall_nodes',
                    'reads', 'computed', 'holds_f', 'old_holds_f', 'in_map', 'cell_at', 'in_set', 'old_in_set',
-                   'has_formula', 'old_has_formula', 'same_formula', 'is_range'):
+                   'has_formula', 'old_has_formula', 'same_formula', 'is_range', 'edge', 'old_edge', 'local'):
             self.world.external['pyvc.heapspec.' + _n] = Builtin(_n, getattr(_HM, 'sx_' + _n))
         from . import records as _REC
         for _n, _f in _REC.SPEC_BUILTINS.items():
@@ -842,7 +853,23 @@ class Verifier:
         for i, r in enumerate(c.requires):
             self.oblige_spec(f'{owner}/pre@call:{c.name}#{i}', 'pre@call', r, vals)
         # exceptional exits the callee's contract allows
-        for typ, cond in c.raises.items():
+        if getattr(c, 'heap', False) and c.raises:
+            # heap mode: the callee may have changed the heap before it raised; the clause of the exception type
+            # is a postcondition of that exit (old heap = before the call)
+            from . import heapmodel as HM
+            k = interp.ex.choose(len(c.raises) + 1)
+            if k:
+                typ, cond = list(c.raises.items())[k - 1]
+                pre = dict(HM.heap_of(interp.ex))
+                interp.ex.heap = HM.fresh_heap(interp.ex, 'raise')
+                self.old_heaps.append(pre)
+                try:
+                    if cond is not None:
+                        self.assume_spec(cond, vals)
+                finally:
+                    self.old_heaps.pop()
+                raise PyExc(typ, 'raised by contract of ' + c.name)
+        for typ, cond in ({} if getattr(c, 'heap', False) else c.raises).items():
             ok = self.eval_spec(cond, vals, 'assume') if cond is not None else True
             if isinstance(ok, SBool):
                 if interp.ex.branch(ok.t) and interp.ex.choose(2) == 0:
@@ -1228,6 +1255,7 @@ def loop_hook(interp, node, env, it, force=False):
     if not inv:
         return False
     from .loops import loop_ordinal, run_invariant_loop
+    vr.loop_env = env
     e = env
     while e is not None and getattr(e, 'func', None) is None:
         e = e.parent
